@@ -87,6 +87,17 @@ def generate(rng, tier):
                          'inline': [['+', 'IGNORE_EXCEPTION_DETAIL', None]], 'inline_at': rng.choice(['own', 'own', 'last', 'first'])}
                 second = {'i': b + 1, 'form': rng.choice(['expr', 'multiline']), 'pts': ['%ss%da' % (pfx, b + 1)], 'ps2': True, 'sep': rng.choice(['none', 'blank']),
                           'want': wk, 'exc': {'exc': 'ValueError', 'msg': 'second ' + W.tok('%ss%da' % (pfx, b + 1))}}
+                if rng.random() < 0.5:
+                    # the very same exception text and the very same want, twice: what was found
+                    # under the first statement's flag is not an answer for the second
+                    first['exc']['msg'] = second['exc']['msg'] = 'the same detail'
+                    if rng.random() < 0.5:
+                        # ... the other way round: an ellipsis want that matches under the default
+                        # flags, then the same text and want where the statement switches ELLIPSIS off
+                        first['want'] = second['want'] = 'tbell'
+                        del first['inline']
+                        second['inline'] = [['-', 'ELLIPSIS', None]]
+                        second['inline_at'] = rng.choice(['last', 'first', 'own'])
                 steps.extend([first, second])
         gen.fix_chunk_starts(steps)
     # wants that need a flag to match are left as they are: then they must fail
